@@ -1,4 +1,5 @@
 import RumaModel.Driver.AuthCommon
+import RumaModel.Driver.StateResIO
 import RumaModel.Model.AuthReads
 import RumaModel.Spec.AuthTypes
 namespace Ruma.Driver.C09
@@ -29,6 +30,9 @@ def handle (toks : List String) : String :=
         showPairs (verdict (authCheck rules ev f)) (authReads rules ev f)
       | _, _ => "bad-op"
     | _, _ => "bad-op"
+  -- resolve-level non-interference (`iterative_auth_check`): the state-resolution model / spec of C07
+  | "c09.iter" :: args => Ruma.Driver.StateResIO.handleOp "resolve" args
+  | "c09.iterspec" :: args => Ruma.Driver.StateResIO.handleOp "resolvespec" args
   | _ => "bad-op"
 
 end Ruma.Driver.C09
